@@ -129,6 +129,7 @@ func runC09(p *core.Program, r *core.Report) {
 		h := &hmapType{p: p, r: r, pre: "C09", t: t, name: "util/hmap." + n, linked: true, hasMax: structHasField(t, "max"), modes: modes}
 		h.checkInsertHelpers()
 		h.checkRemove()
+		h.checkMoves()
 		h.checkRehash()
 		h.checkWalks()
 		h.checkEnumer()
@@ -160,6 +161,7 @@ func runC12(p *core.Program, r *core.Report) {
 		h := &hmapType{p: p, r: r, pre: "C12", t: t, name: "util/hmap." + n, linked: false, hasMax: false, modes: modes} // plain types never evict (max only feeds IsFull)
 		h.checkInsertHelpers()
 		h.checkRemove()
+		h.checkMoves()
 		h.checkRehash()
 		h.checkWalks()
 		h.checkEnumer()
